@@ -323,4 +323,337 @@ theorem decodeSet_data (addr : Bytes) (t : Template) (records : List (List VVal)
   have e : c + 4 + (body t records).length + pad.length = c + (4 + ((body t records).length + pad.length)) := by omega
   rw [e]
 
+/-! ## Level 2: template records and template sets -/
+
+theorem wfSpec_iff (s : Spec) :
+    Wire.Ipfix.wfSpec s = true ↔
+      s.len < 65536 ∧ s.id < 32768 ∧ s.ent < 4294967296 ∧ (s.ent = 0 ∨ 1 ≤ s.id) := by
+  simp only [Wire.Ipfix.wfSpec, Bool.and_eq_true, Bool.or_eq_true, decide_eq_true_eq, beq_iff_eq,
+    and_assoc]
+
+theorem readSpec_roundtrip (s : Spec) (hw : Wire.Ipfix.wfSpec s = true) (rest : Bytes) (c : Nat) :
+    readSpec ⟨Wire.Ipfix.encodeSpec s ++ rest, c⟩ =
+      (.ok s, ⟨rest, c + (Wire.Ipfix.encodeSpec s).length⟩) := by
+  obtain ⟨h1, h2, h3, h4⟩ := (wfSpec_iff s).1 hw
+  unfold Wire.Ipfix.encodeSpec
+  by_cases he : s.ent = 0
+  · rw [if_pos he]
+    simp only [readSpec, List.append_assoc]
+    rw [rU16_be16 _ (by omega)]
+    simp only
+    rw [rU16_be16 _ h1]
+    simp only
+    rw [if_neg (by omega)]
+    simp only [List.length_append, be16_length, Nat.add_assoc]
+    cases s with
+    | mk id len ent => simp only at he; subst he; rfl
+  · rw [if_neg he]
+    have hid : 1 ≤ s.id := by rcases h4 with h | h; exact absurd h he; exact h
+    simp only [readSpec, List.append_assoc]
+    rw [rU16_be16 _ (by omega)]
+    simp only
+    rw [rU16_be16 _ h1]
+    simp only
+    rw [if_pos (by omega)]
+    rw [rU32_be32 _ h3]
+    simp only [List.length_append, be16_length, be32_length, Nat.add_assoc]
+    have : (32768 + s.id) % 32768 = s.id := by omega
+    rw [this]
+
+/-- octets of a list of field specifiers -/
+def sbytes (specs : List Spec) : Bytes := (specs.map Wire.Ipfix.encodeSpec).flatten
+
+theorem sbytes_cons (s : Spec) (ss : List Spec) :
+    sbytes (s :: ss) = Wire.Ipfix.encodeSpec s ++ sbytes ss := by simp [sbytes]
+
+theorem encodeSpec_length_ge (s : Spec) : 4 ≤ (Wire.Ipfix.encodeSpec s).length := by
+  unfold Wire.Ipfix.encodeSpec
+  split <;> simp [be16_length, be32_length]
+
+theorem sbytes_length_ge (specs : List Spec) : 4 * specs.length ≤ (sbytes specs).length := by
+  induction specs with
+  | nil => simp
+  | cons s ss ih =>
+    have := encodeSpec_length_ge s
+    simp only [sbytes_cons, List.length_append, List.length_cons]; omega
+
+theorem readSpecs_roundtrip : ∀ (specs : List Spec) (rest : Bytes) (c : Nat) (acc : List Spec),
+    specs.all Wire.Ipfix.wfSpec = true →
+    readSpecs specs.length ⟨sbytes specs ++ rest, c⟩ acc =
+      (.ok (acc ++ specs), ⟨rest, c + (sbytes specs).length⟩) := by
+  intro specs
+  induction specs with
+  | nil => intro rest c acc _; simp [readSpecs, sbytes]
+  | cons s ss ih =>
+    intro rest c acc hw
+    simp only [List.all_cons, Bool.and_eq_true] at hw
+    simp only [List.length_cons, readSpecs, sbytes_cons, List.append_assoc]
+    rw [readSpec_roundtrip s hw.1]
+    simp only
+    rw [ih rest _ (acc ++ [s]) hw.2]
+    simp only [List.append_assoc, List.singleton_append, List.length_append, Nat.add_assoc]
+
+theorem wfTemplate_iff (t : Template) :
+    Wire.Ipfix.wfTemplate t = true ↔
+      0 < t.tid ∧ t.tid < 65536 ∧ t.scope = [] ∧ t.cnt = t.fields.length ∧ t.scnt = 0 ∧
+      1 ≤ t.fields.length ∧ t.fields.length < 65536 ∧ t.fields.all Wire.Ipfix.wfSpec = true := by
+  simp only [Wire.Ipfix.wfTemplate, Bool.and_eq_true, decide_eq_true_eq, beq_iff_eq, and_assoc]
+
+theorem encodeTemplate_eq (t : Template) :
+    Wire.Ipfix.encodeTemplate t = be16 t.tid ++ (be16 t.fields.length ++ sbytes t.fields) := by
+  simp [Wire.Ipfix.encodeTemplate, sbytes]
+
+/-- a template record is parsed back to the template it encodes -/
+theorem parseTpl_roundtrip (t : Template) (hw : Wire.Ipfix.wfTemplate t = true) (rest : Bytes) (c : Nat) :
+    parseTpl ⟨Wire.Ipfix.encodeTemplate t ++ rest, c⟩ =
+      (.ok t, ⟨rest, c + (Wire.Ipfix.encodeTemplate t).length⟩) := by
+  obtain ⟨_, h1, h2, h3, h4, _, h6, h7⟩ := (wfTemplate_iff t).1 hw
+  rw [encodeTemplate_eq]
+  simp only [parseTpl, List.append_assoc]
+  rw [rU16_be16 _ h1]
+  simp only
+  rw [rU16_be16 _ h6]
+  simp only
+  rw [readSpecs_roundtrip t.fields rest _ [] h7]
+  simp only [List.nil_append, List.length_append, be16_length, Nat.add_assoc]
+  cases t with
+  | mk tid cnt scnt scope fields =>
+    simp only at h2 h3 h4
+    subst h2 h3 h4
+    rfl
+
+theorem wfOptTemplate_iff (t : Template) :
+    Wire.Ipfix.wfOptTemplate t = true ↔
+      0 < t.tid ∧ t.tid < 65536 ∧ t.cnt = t.scope.length + t.fields.length ∧
+      t.scnt = t.scope.length ∧ t.scope.length + t.fields.length < 65536 ∧
+      t.scope.all Wire.Ipfix.wfSpec = true ∧ t.fields.all Wire.Ipfix.wfSpec = true := by
+  simp only [Wire.Ipfix.wfOptTemplate, Bool.and_eq_true, decide_eq_true_eq, beq_iff_eq, and_assoc]
+
+theorem encodeOptTemplate_eq (t : Template) :
+    Wire.Ipfix.encodeOptTemplate t =
+      be16 t.tid ++ (be16 (t.scope.length + t.fields.length) ++ (be16 t.scope.length ++
+        (sbytes t.scope ++ sbytes t.fields))) := by
+  simp [Wire.Ipfix.encodeOptTemplate, sbytes]
+
+/-- an options template record is parsed back to the template it encodes -/
+theorem parseOptTpl_roundtrip (t : Template) (hw : Wire.Ipfix.wfOptTemplate t = true) (rest : Bytes)
+    (c : Nat) :
+    parseOptTpl ⟨Wire.Ipfix.encodeOptTemplate t ++ rest, c⟩ =
+      (.ok t, ⟨rest, c + (Wire.Ipfix.encodeOptTemplate t).length⟩) := by
+  obtain ⟨_, h1, h2, h3, h4, h5, h6⟩ := (wfOptTemplate_iff t).1 hw
+  rw [encodeOptTemplate_eq]
+  simp only [parseOptTpl, List.append_assoc]
+  rw [rU16_be16 _ h1]
+  simp only
+  rw [rU16_be16 _ h4]
+  simp only
+  rw [rU16_be16 _ (by omega)]
+  simp only
+  rw [readSpecs_roundtrip t.scope _ _ [] h5]
+  simp only
+  have e : (t.scope.length + t.fields.length + 65536 - t.scope.length) % 65536 = t.fields.length := by
+    omega
+  rw [e, readSpecs_roundtrip t.fields rest _ [] h6]
+  simp only [List.nil_append, List.length_append, be16_length, Nat.add_assoc]
+  cases t with
+  | mk tid cnt scnt scope fields =>
+    simp only at h2 h3
+    subst h2 h3
+    rfl
+
+theorem peek16_be16 (n : Nat) (h : n < 65536) (rest : Bytes) (c : Nat) :
+    Rd.peek16 ⟨be16 n ++ rest, c⟩ = some n := by
+  simp only [Rd.peek16, readN_append' (be16 n) rest c 2 (be16_length n), Option.map_some]
+  rw [be16, beN_encBE 2 n (by simpa using h)]
+
+/-- octets of a list of (options) template records under an encoder `enc` -/
+def tbody (enc : Template → Bytes) (ts : List Template) : Bytes := (ts.map enc).flatten
+
+theorem tbody_cons (enc : Template → Bytes) (t : Template) (ts : List Template) :
+    tbody enc (t :: ts) = enc t ++ tbody enc ts := by simp [tbody]
+
+/-- **C03 level 2c (template loop)**: the loop of a template set (id 2: `enc = encodeTemplate`,
+id 3: `enc = encodeOptTemplate`) inserts exactly the announced templates, in order, adds no record,
+stops in front of the padding -/
+theorem setLoop_tpl (ctx : Ctx) (enc : Template → Bytes) (hsid : ctx.setId = 2 ∨ ctx.setId = 3)
+    (hlen16 : ctx.len < 65536) :
+    ∀ (ts : List Template) (pad rest : Bytes) (fuel : Nat) (st : St),
+      (∀ t ∈ ts, 4 < (enc t).length ∧ ∀ rest c,
+        Rd.peek16 ⟨enc t ++ rest, c⟩ ≠ some 0 ∧
+        (if ctx.setId = 2 then parseTpl ⟨enc t ++ rest, c⟩ else parseOptTpl ⟨enc t ++ rest, c⟩) =
+          (.ok t, ⟨rest, c + (enc t).length⟩)) →
+      pad.length ≤ 4 →
+      st.r.rem = tbody enc ts ++ (pad ++ rest) →
+      ctx.start ≤ st.r.cnt →
+      (st.r.cnt - ctx.start) + ((tbody enc ts).length + pad.length) = ctx.len →
+      ts.length < fuel →
+      setLoop ctx fuel st =
+        ({ st with r := ⟨pad ++ rest, st.r.cnt + (tbody enc ts).length⟩,
+                   cache := insertAll ctx.addr st.cache ts }, none, false) := by
+  intro ts
+  induction ts with
+  | nil =>
+    intro pad rest fuel st _ hpad hrem hstart hlen hfuel
+    cases fuel with
+    | zero => omega
+    | succ n =>
+      simp only [setLoop]
+      have hc : contCond ctx st.r = false := by
+        simp only [contCond, consumed16, Bool.and_eq_false_iff]
+        right
+        simp only [tbody, List.map_nil, List.flatten_nil, List.length_nil] at hlen
+        apply decide_eq_false; omega
+      rw [hc]
+      simp only [tbody, List.map_nil, List.flatten_nil, List.nil_append, List.length_nil,
+        Nat.add_zero, insertAll, List.foldl_nil] at hrem ⊢
+      cases st with
+      | mk r cache rs =>
+        cases r with
+        | mk rem cnt => simp at hrem ⊢; exact hrem
+  | cons t ts ih =>
+    intro pad rest fuel st hm hpad hrem hstart hlen hfuel
+    cases fuel with
+    | zero => simp at hfuel
+    | succ n =>
+      obtain ⟨hbig, hparse⟩ := hm t (by simp)
+      simp only [setLoop]
+      rw [tbody_cons] at hrem hlen
+      simp only [List.length_append] at hlen
+      have hc : contCond ctx st.r = true := by
+        simp only [contCond, consumed16, Bool.and_eq_true]
+        refine ⟨⟨?_, ?_⟩, ?_⟩
+        · apply decide_eq_true; omega
+        · apply decide_eq_true; rw [hrem]; simp only [List.length_append]; omega
+        · apply decide_eq_true; omega
+      rw [if_pos hc, if_pos hsid]
+      have hrem' : st.r = ⟨enc t ++ (tbody enc ts ++ (pad ++ rest)), st.r.cnt⟩ := by
+        cases hst : st.r with
+        | mk rem cnt =>
+          rw [hst] at hrem
+          simp only at hrem ⊢
+          rw [hrem, List.append_assoc]
+      obtain ⟨hpk, hp⟩ := hparse (tbody enc ts ++ (pad ++ rest)) st.r.cnt
+      rw [← hrem'] at hp hpk
+      rw [if_neg hpk]
+      have hp' : (if ctx.setId = 2 then parseTpl st.r else parseOptTpl st.r) =
+          (.ok t, ⟨tbody enc ts ++ (pad ++ rest), st.r.cnt + (enc t).length⟩) := by
+        split
+        · rename_i h0; rw [if_pos h0] at hp; exact hp
+        · rename_i h0; rw [if_neg h0] at hp; exact hp
+      rw [hp']
+      simp only
+      have := ih pad rest n
+        { st with r := ⟨tbody enc ts ++ (pad ++ rest), st.r.cnt + (enc t).length⟩,
+                  cache := st.cache.insert ctx.addr t.tid t }
+        (fun r hr => hm r (by simp [hr])) hpad rfl
+        (by show ctx.start ≤ st.r.cnt + _; omega)
+        (by show st.r.cnt + _ - ctx.start + _ = ctx.len; omega)
+        (by simp only [List.length_cons] at hfuel; omega)
+      rw [this]
+      simp only [tbody_cons, List.length_append, insertAll, List.foldl_cons, Nat.add_assoc]
+
+theorem tbody_length_ge (enc : Template → Bytes) :
+    ∀ (ts : List Template), (∀ t ∈ ts, 4 < (enc t).length) → ts.length ≤ (tbody enc ts).length := by
+  intro ts
+  induction ts with
+  | nil => intro _; simp
+  | cons x xs ih =>
+    intro h
+    have := ih (fun r hr => h r (by simp [hr]))
+    have hx := h x (by simp)
+    simp only [tbody_cons, List.length_append, List.length_cons]
+    omega
+
+theorem encodeTemplate_big (t : Template) (hw : Wire.Ipfix.wfTemplate t = true) :
+    4 < (Wire.Ipfix.encodeTemplate t).length := by
+  obtain ⟨_, _, _, _, _, h5, _, _⟩ := (wfTemplate_iff t).1 hw
+  have := sbytes_length_ge t.fields
+  rw [encodeTemplate_eq]; simp only [List.length_append, be16_length]; omega
+
+theorem encodeOptTemplate_big (t : Template) : 4 < (Wire.Ipfix.encodeOptTemplate t).length := by
+  rw [encodeOptTemplate_eq]; simp only [List.length_append, be16_length]; omega
+
+/-- **C03 level 2d (template set)**: `decodeSet` consumes the whole encoded template set, inserts
+exactly its templates (in order, a later one overriding an earlier one with the same id), adds no
+record, reports no error -/
+theorem decodeSet_tpl (addr : Bytes) (ts : List Template) (pad rest : Bytes)
+    (c fuel : Nat) (cache : Cache) (recs : List Record)
+    (hw : Wire.Ipfix.wfSet addr cache (.tpl ts pad) = true) (hfuel : ts.length < fuel) :
+    decodeSet addr fuel ⟨⟨Wire.Ipfix.encodeTemplateSet ts pad ++ rest, c⟩, cache, recs⟩ =
+      (⟨⟨rest, c + (Wire.Ipfix.encodeTemplateSet ts pad).length⟩, insertAll addr cache ts, recs⟩, none) := by
+  simp only [Wire.Ipfix.wfSet, Wire.Ipfix.wfSetLen, Bool.and_eq_true, decide_eq_true_eq,
+    List.all_eq_true] at hw
+  obtain ⟨⟨_, hts⟩, hpad, hlen⟩ := hw
+  unfold Wire.Ipfix.encodeTemplateSet
+  rw [decodeSet_header addr fuel 2 _ pad rest c cache recs (by decide) hlen]
+  simp only [setBody, lookupTpl, if_neg (by decide : ¬ (2 > 255)), Option.getD_none]
+  have hb : (ts.map Wire.Ipfix.encodeTemplate).flatten = tbody Wire.Ipfix.encodeTemplate ts := rfl
+  rw [hb] at hlen ⊢
+  simp only [List.length_append] at hlen
+  have hloop := setLoop_tpl ⟨addr, 2, 4 + (tbody Wire.Ipfix.encodeTemplate ts ++ pad).length, c, emptyTpl⟩
+    Wire.Ipfix.encodeTemplate (Or.inl rfl) (by simp only [List.length_append]; omega) ts pad rest fuel
+    ⟨⟨tbody Wire.Ipfix.encodeTemplate ts ++ (pad ++ rest), c + 4⟩, cache, recs⟩
+    (by
+      intro t ht
+      have hwt := hts t ht
+      obtain ⟨h0, h1, _⟩ := (wfTemplate_iff t).1 hwt
+      refine ⟨encodeTemplate_big t hwt, ?_⟩
+      intro rest c
+      refine ⟨?_, ?_⟩
+      · rw [encodeTemplate_eq, List.append_assoc, peek16_be16 _ h1]
+        intro hx; simp at hx; omega
+      · simp only [if_true]
+        exact parseTpl_roundtrip t hwt rest c)
+    hpad rfl (by show c ≤ c + 4; omega)
+    (by show c + 4 - c + _ = 4 + _; simp only [List.length_append]; omega) hfuel
+  rw [hloop]
+  simp only [Bool.false_eq_true, if_false]
+  rw [skipRest_pad _ _ pad rest (c + 4 + (tbody Wire.Ipfix.encodeTemplate ts).length) rfl
+    (by simp only [List.length_append]; omega) (by show c ≤ _; omega)
+    (by simp only [List.length_append]; omega)]
+  simp only [encodeSet_length]
+  have e : c + 4 + (tbody Wire.Ipfix.encodeTemplate ts).length + pad.length =
+      c + (4 + ((tbody Wire.Ipfix.encodeTemplate ts).length + pad.length)) := by omega
+  rw [e]
+
+theorem decodeSet_optTpl (addr : Bytes) (ts : List Template) (pad rest : Bytes)
+    (c fuel : Nat) (cache : Cache) (recs : List Record)
+    (hw : Wire.Ipfix.wfSet addr cache (.optTpl ts pad) = true) (hfuel : ts.length < fuel) :
+    decodeSet addr fuel ⟨⟨Wire.Ipfix.encodeOptTemplateSet ts pad ++ rest, c⟩, cache, recs⟩ =
+      (⟨⟨rest, c + (Wire.Ipfix.encodeOptTemplateSet ts pad).length⟩, insertAll addr cache ts, recs⟩, none) := by
+  simp only [Wire.Ipfix.wfSet, Wire.Ipfix.wfSetLen, Bool.and_eq_true, decide_eq_true_eq,
+    List.all_eq_true] at hw
+  obtain ⟨⟨_, hts⟩, hpad, hlen⟩ := hw
+  unfold Wire.Ipfix.encodeOptTemplateSet
+  rw [decodeSet_header addr fuel 3 _ pad rest c cache recs (by decide) hlen]
+  simp only [setBody, lookupTpl, if_neg (by decide : ¬ (3 > 255)), Option.getD_none]
+  have hb : (ts.map Wire.Ipfix.encodeOptTemplate).flatten = tbody Wire.Ipfix.encodeOptTemplate ts := rfl
+  rw [hb] at hlen ⊢
+  simp only [List.length_append] at hlen
+  have hloop := setLoop_tpl ⟨addr, 3, 4 + (tbody Wire.Ipfix.encodeOptTemplate ts ++ pad).length, c, emptyTpl⟩
+    Wire.Ipfix.encodeOptTemplate (Or.inr rfl) (by simp only [List.length_append]; omega) ts pad rest fuel
+    ⟨⟨tbody Wire.Ipfix.encodeOptTemplate ts ++ (pad ++ rest), c + 4⟩, cache, recs⟩
+    (by
+      intro t ht
+      have hwt := hts t ht
+      obtain ⟨h0, h1, _⟩ := (wfOptTemplate_iff t).1 hwt
+      refine ⟨encodeOptTemplate_big t, ?_⟩
+      intro rest c
+      refine ⟨?_, ?_⟩
+      · rw [encodeOptTemplate_eq, List.append_assoc, peek16_be16 _ h1]
+        intro hx; simp at hx; omega
+      · simp only [if_neg (by decide : ¬ ((3 : Nat) = 2))]
+        exact parseOptTpl_roundtrip t hwt rest c)
+    hpad rfl (by show c ≤ c + 4; omega)
+    (by show c + 4 - c + _ = 4 + _; simp only [List.length_append]; omega) hfuel
+  rw [hloop]
+  simp only [Bool.false_eq_true, if_false]
+  rw [skipRest_pad _ _ pad rest (c + 4 + (tbody Wire.Ipfix.encodeOptTemplate ts).length) rfl
+    (by simp only [List.length_append]; omega) (by show c ≤ _; omega)
+    (by simp only [List.length_append]; omega)]
+  simp only [encodeSet_length]
+  have e : c + 4 + (tbody Wire.Ipfix.encodeOptTemplate ts).length + pad.length =
+      c + (4 + ((tbody Wire.Ipfix.encodeOptTemplate ts).length + pad.length)) := by omega
+  rw [e]
+
 end Vflow.Ipfix
